@@ -1,0 +1,53 @@
+//go:build verif
+
+package cloudprovider
+
+// Contracts checked by /verif/gvc. Comment-only file (build tag verif).
+
+// CacheOK: every cache entry has a holder.
+//@ pred CacheOK(ccp *CachedCloudProvider) := ccp != nil && ccp.cache != nil && (forall ip gostatsd.Source :: ip in ccp.cache ==> ccp.cache[ip] != nil)
+// posOf / negOf: how an entry counts towards the positive / negative cache-size gauges
+//@ pred posOf(present bool, inst *gostatsd.Instance) := ite(present && inst != nil, 1, 0)
+//@ pred negOf(present bool, inst *gostatsd.Instance) := ite(present && inst == nil, 1, 0)
+
+// handleInstanceInfo: the answer is cached (a failed or empty refresh keeps the instance that was
+// there), the cache-size gauges change exactly by the change of this entry's classification, every
+// other entry is untouched, and exactly this answer is queued for the consumer.
+//@ func (*CachedCloudProvider).handleInstanceInfo
+//@   requires CacheOK(ccp)
+//@   ensures  CacheOK(ccp) && info.IP in ccp.cache && ccp.cache == old(ccp.cache)
+//@   ensures  [keep] old(info.IP in ccp.cache) && info.Instance == nil ==> ccp.cache[info.IP].instance == old(ccp.cache[info.IP].instance)
+//@   ensures  [keep] info.Instance != nil ==> ccp.cache[info.IP].instance == info.Instance
+//@   ensures  [keep] !old(info.IP in ccp.cache) ==> ccp.cache[info.IP].instance == info.Instance
+//@   ensures  [gauges] ccp.statsCachePositive == wrapu64(old(ccp.statsCachePositive) + posOf(true, ccp.cache[info.IP].instance) - old(posOf(info.IP in ccp.cache, ccp.cache[info.IP].instance)))
+//@   ensures  [gauges] ccp.statsCacheNegative == wrapu64(old(ccp.statsCacheNegative) + negOf(true, ccp.cache[info.IP].instance) - old(negOf(info.IP in ccp.cache, ccp.cache[info.IP].instance)))
+//@   ensures  forall ip gostatsd.Source :: ip != info.IP ==> (ip in ccp.cache) == old(ip in ccp.cache) && ccp.cache[ip] == old(ccp.cache[ip])
+//@   ensures  [answer] len(ccp.toReturnInfo) == old(len(ccp.toReturnInfo)) + 1 && ccp.toReturnInfo[len(ccp.toReturnInfo) - 1] == info
+//@   modifies ccp.statsCachePositive, ccp.statsCacheNegative, ccp.statsCacheRefreshPositive, ccp.statsCacheRefreshNegative, ccp.cache[*], ccp.toReturnInfo, ccp.toReturnInfo[*]
+
+// Peek: a hit exactly for the sources in the cache, answering with the cached instance.
+//@ func (*CachedCloudProvider).Peek
+//@   requires CacheOK(ccp)
+//@   ensures  result1 == (ip in ccp.cache)
+//@   ensures  result1 ==> result0 == ccp.cache[ip].instance
+//@   ensures  !result1 ==> result0 == nil
+//@   modifies ccp.cache[ip].lastAccessNano
+
+// doLookup: one answer per requested source, carrying what the provider returned for it (nothing
+// when the provider returned no entry, a partial map or an error), unless the context is done.
+//@ func (*cloudProviderLookupDispatcher).doLookup
+//@   requires ld != nil && ld.cloudProvider != nil && ld.logger != nil
+//@   sendsite requires ch == ld.infoSink && val.IP == ip && val.Instance == instances[ip]
+//@   ensures  sent(ld.infoSink) <= old(sent(ld.infoSink)) + len(ips)
+//@   loop 2 invariant sent(ld.infoSink) <= old(sent(ld.infoSink)) + rangeindex + 1 && len(ips) == old(len(ips))
+//@   modifies everything
+
+// doRefresh: evicts or re-queues entries; the cache keeps a holder for every remaining entry and
+// nothing is added to it.
+//@ func (*CachedCloudProvider).doRefresh
+//@   requires CacheOK(ccp)
+//@   ensures  CacheOK(ccp) && ccp.cache == old(ccp.cache)
+//@   ensures  forall ip gostatsd.Source :: ip in ccp.cache ==> old(ip in ccp.cache) && ccp.cache[ip] == old(ccp.cache[ip])
+//@   loop 1 invariant CacheOK(ccp) && ccp.cache == old(ccp.cache) && (forall ip gostatsd.Source :: (ip in ccp.cache) == old(ip in ccp.cache) && ccp.cache[ip] == old(ccp.cache[ip]))
+//@   loop 2 invariant CacheOK(ccp) && ccp.cache == old(ccp.cache) && (forall ip gostatsd.Source :: ip in ccp.cache ==> old(ip in ccp.cache) && ccp.cache[ip] == old(ccp.cache[ip]))
+//@   modifies ccp.statsCachePositive, ccp.statsCacheNegative, ccp.cache[*], ccp.toLookupIPs, ccp.toLookupIPs[*], allElems(gostatsd.Source)
